@@ -118,6 +118,17 @@ func routerDiffers(pos, s string, valid bool) string {
 				return "router-differs:mount-from"
 			}
 		}
+		// as the repository of an upload: the routing words come last in the path, whatever the name holds
+		if s != "" {
+			r := parse("POST", "/v2/"+s+"/blobs/uploads/", "")
+			if acc := r != nil && r.Kind == ociverif.ReqBlobStartUpload; acc != valid || (acc && r.Repo != s) {
+				return "router-differs:repo-of-upload"
+			}
+			r = parse("POST", "/v2/"+s+"/blobs/uploads/", "digest=sha256:"+strings.Repeat("0", 64))
+			if acc := r != nil && r.Kind == ociverif.ReqBlobUploadBlob; acc != valid || (acc && r.Repo != s) {
+				return "router-differs:repo-of-post-upload"
+			}
+		}
 		// as the repository of a path, when no element could be taken for a routing word
 		for _, e := range elems {
 			for _, w := range routingWords {
@@ -334,7 +345,8 @@ func (*c17) Gen(rng *RNG, tier string) []Case {
 		"localhost:5000/foo", "a:5000/B", "a:5/b@c", "foo.com/bar", "foo.com", "test.com:5000", "foo_bar.com:8080", "[::1]:5000/repo",
 		"a\n", "a:b\n", "a@b\nc", "a:b\nc", "a.b/c:t\n@sha256:" + strings.Repeat("a", 64), "a__b", "a___b", "a_.b", "a--b", "a-", "-a", "a..b", "a.-b",
 		strings.Repeat("a", 255), strings.Repeat("a", 256), "h.com/" + strings.Repeat("a", 255), "h.com/" + strings.Repeat("a", 256),
-		"a:" + strings.Repeat("t", 128), "a:" + strings.Repeat("t", 129)} {
+		"a:" + strings.Repeat("t", 128), "a:" + strings.Repeat("t", 129),
+		"foo/blobs/uploads", "foo/blobs/uploads/cache", "foo/blobs/uploads-cache", "blobs/uploads/blobs/uploads", "a/manifests/b/tags/list", "x/referrers/y/blobs"} {
 		add("ref host "+tok(s), "ref repo "+tok(s), "ref tag "+tok(s), "ref digest "+tok(s), "ref parserel "+tok(s), "ref parse "+tok(s))
 	}
 	// every part at, just below and just above its length limit, together
